@@ -11,7 +11,7 @@ import io
 import pickle
 from harness import common, replay, tlc
 
-BLOCK = 250
+BLOCK = 250          # default; _work re-derives it from the real cache bound (maxsize // 2) so that K = 2 whatever the bound is
 NKEYS = 5
 
 
@@ -142,6 +142,10 @@ def _work(H, chunk):
     ncalls = 0
     soup = bs4.BeautifulSoup('<div class="c0 c1 c2"><p class="q">x</p><b>y</b></div><span class="c0"></span><i></i>', 'html.parser')
     samp = None
+    bound = cp._cached_css_compile.cache_info().maxsize
+    if bound is None or bound < 2:
+        return [('unbounded', 'the pattern cache has no bound (maxsize=%r)' % bound, {'group': 'unbounded cache'})], 0, 0, None
+    BLOCK = bound // 2
     for case in chunk:
         obs = case['obs']
         sv.purge()
@@ -199,10 +203,10 @@ def _work(H, chunk):
                             pass
             info = cp._cached_css_compile.cache_info()
             got = (info.hits, info.misses, info.currsize, info.maxsize)
-            exp = (o['hits'] * BLOCK, o['misses'] * BLOCK, o['size'] * BLOCK, 2 * BLOCK)
+            exp = (o['hits'] * BLOCK, o['misses'] * BLOCK, o['size'] * BLOCK, bound)
             if got != exp:
                 errs.append((tag, 'cache_info (hits, misses, currsize, maxsize) = %r, model says %r' % (got, exp)))
-            if info.currsize > 500:
+            if info.currsize > bound:
                 errs.append((tag, 'cache holds %d > bound' % info.currsize))
         for tag, what in errs:
             viols.append(('%s|%s' % (what, label), '%s at %s' % (what, tag), {'group': what[:60], 'history': obs}))
